@@ -243,4 +243,10 @@ theorem monitors_sound (kv : KV) (hinv : Inv kv) (c : Caller) (op : Op) (aok sok
   · simp [h, failed_calls_noop kv hinv c op aok sok h]
   · simp [h]
 
+/-- ...and `inv` (every secret has its active version, versions lie between 1 and the counter, no
+name is empty) in every state reachable from the empty database -/
+theorem monitor_inv_sound (xs : List Call) (c : Caller) (op : Op) (aok sok : Bool) :
+    c02_inv (MonSound.obsOf (run Cfg.std KV.empty xs) c op aok sok) = true :=
+  MonSound.c02_inv_sound_reachable xs c op aok sok
+
 end Setec.C02
